@@ -167,6 +167,27 @@ def check_case(ctx, prop, fparams, decorate_src, make_kwo, make_po, admissible, 
         return None
     ctx.nontrivial((sigs.shape_key(fparams), tuple(decorate_src), method, reuse))
     want = sig_meta(inspect.signature(ref))
+    # now and then modifiers.annotate is applied on top afterwards: it re-prepares the layers beneath it,
+    # which must leave the advertised kinds/defaults and the call behaviour exactly as they were
+    late = None
+    named_ = [q[0] for q in (ref_params[1:] if method else ref_params) if q[1] in (PO, PK, KO)]
+    if named_ and (len(decorate_src) + len(fparams) + len(named_)) % 3 == 0:
+        from sigtools import modifiers as _mod
+        late = named_[(len(fparams) + len(decorate_src)) % len(named_)]
+        try:
+            if method:
+                cls = ns['A']
+                fn_name = [k for k in vars(cls) if k.startswith('mf')][0]
+                _mod.annotate(**{late: 'late'})(vars(cls)[fn_name])
+                g = getattr(cls(), fn_name)
+            else:
+                _mod.annotate(**{late: 'late'})(g)
+        except Exception as e:
+            V('annotate-on-top-raises-%s' % type(e).__name__, 'modifiers.annotate applied on top of the decorated callable raised %s: %s' % (type(e).__name__, e), w)
+            return None
+        ctx.count('%s.annotate_applied_on_top' % prop)
+        w = dict(w, annotate_applied_afterwards=late)
+        want = [(n_, k_, d_, ('late' if n_ == late else a_)) for n_, k_, d_, a_ in want]
     for lab, retr in (('sigtools.signature', sigtools.signature), ('inspect.signature', inspect.signature)):
         try:
             got = sig_meta(retr(g))
